@@ -23,7 +23,7 @@ ASSUMPTIONS = ["values are compared as floats after parsing (the file holds repr
                "arrival column after read->write is excluded here (its tick mapping is C13)"]
 NSHARDS = {"quick": 16, "thorough": 16}
 N = {"quick": 120, "thorough": 25000}
-REQUIRE = {"pipelines_roundtripped": 5000, "multi_parent_operators": 2000, "multi_root_pipelines": 500, "memory_zero_values": 300,
+REQUIRE = {"second_pass_through_one_reader": 100, "pipelines_roundtripped": 5000, "multi_parent_operators": 2000, "multi_root_pipelines": 500, "memory_zero_values": 300,
            "memory_unset_values": 2000, "rewrite_rows_compared": 20000, "malformed:refused": 600}
 for _c in ("missing-priority", "missing-arrival", "later-priority", "later-arrival", "unknown-priority", "unknown-law", "undefined-parent"):
     REQUIRE["malformed_class:" + _c] = 40
@@ -128,9 +128,18 @@ def run_case(case, mon):
     for row in tg.generate_rows():
         w.write_row(row)
     text1 = buf.getvalue()
-    # ---- write -> read
+    # ---- write -> read.  Every other case reads the file twice through ONE reader object: a first pass that is
+    # abandoned part-way (a run shorter than the trace), the file rewound, then the pass that is judged
     try:
-        back = list(CSVWorkloadReader(io.StringIO(text1)).batch_by_pipeline())
+        fh = io.StringIO(text1)
+        reader = CSVWorkloadReader(fh)
+        if len(originals) >= 3 and len(text1) % 2 == 0:
+            it = reader.batch_by_pipeline()
+            for _ in range(max(1, len(originals) // 2)):
+                next(it, None)
+            fh.seek(0)
+            mon.count("second_pass_through_one_reader")
+        back = list(reader.batch_by_pipeline())
     except Exception as e:
         mon.fail("written-trace-refused", f"the reader refuses the trace the writer just produced: {type(e).__name__}: {e}")
         return
